@@ -8,6 +8,7 @@ import (
 	"os"
 	"path/filepath"
 	"strings"
+	"time"
 
 	"github.com/dlclark/regexp2"
 	"github.com/ollama/ollama/model"
@@ -163,6 +164,90 @@ func main() {
 			}
 			toks[c["name"].(string)] = t
 			return map[string]any{"ok": true, "n": len(v.Values), "specials": hx.HexList(v.SpecialVocabulary())}
+		case "sleep":
+			// idle period (the tokenizer must behave the same after it)
+			time.Sleep(time.Duration(hx.Int(c["ms"])) * time.Millisecond)
+			return map[string]any{"ok": true}
+		case "rt":
+			// round trip of a (possibly very long) text, summarised: no ids/bytes are sent back
+			t := toks[c["vocab"].(string)]
+			if t == nil {
+				return map[string]any{"harness_error": "unknown vocab"}
+			}
+			text := hx.Unhex(c["text"])
+			var tp model.TextProcessor
+			if t.kind == "bpe" {
+				tp = *t.bpe
+			} else {
+				tp = *t.spm
+			}
+			t0 := time.Now()
+			out := map[string]any{"text_len": len(text)}
+			if b(c["split_only"]) && t.kind == "bpe" {
+				// only the real pre-tokeniser (texts too large for the merge loop's memory)
+				total, empty, okp := 0, false, true
+				for _, p := range t.bpe.VerifSplit(text) {
+					if p == "" {
+						empty = true
+					}
+					if okp && (total+len(p) > len(text) || text[total:total+len(p)] != p) {
+						okp = false
+					}
+					total += len(p)
+				}
+				out["split_ok"] = okp && !empty && total == len(text)
+				out["split_len"] = total
+				out["ms"] = time.Since(t0).Milliseconds()
+				return out
+			}
+			ids, err := tp.Encode(text, false)
+			if err != nil {
+				out["enc_err"] = err.Error()
+				return out
+			}
+			inr := true
+			for _, id := range ids {
+				if id < 0 || int(id) >= t.n {
+					inr = false
+				}
+			}
+			out["n_ids"] = len(ids)
+			out["ids_in_range"] = inr
+			dec, err := tp.Decode(ids)
+			if err != nil {
+				out["dec_err"] = err.Error()
+				return out
+			}
+			out["dec_len"] = len(dec)
+			out["ok"] = dec == text
+			if dec != text {
+				i := 0
+				for i < len(dec) && i < len(text) && dec[i] == text[i] {
+					i++
+				}
+				out["diff_at"] = i
+				lo, hi := max(0, i-8), min(len(dec), i+16)
+				out["dec_snip"] = hx.Hex(dec[lo:hi])
+				out["text_snip"] = hx.Hex(text[lo:min(len(text), i+16)])
+			}
+			if t.kind == "bpe" {
+				// the real pre-tokeniser on the whole text (the generator puts no special literal into these texts)
+				total, empty := 0, false
+				okp := true
+				for _, p := range t.bpe.VerifSplit(text) {
+					if p == "" {
+						empty = true
+					}
+					if okp && (total+len(p) > len(text) || text[total:total+len(p)] != p) {
+						okp = false
+					}
+					total += len(p)
+				}
+				out["split_ok"] = okp && !empty && total == len(text)
+				out["split_len"] = total
+			}
+			out["ms"] = time.Since(t0).Milliseconds()
+			return out
 		case "pretok":
 			// the real BytePairEncoding.split (regexp2) for a pattern, plus the classes of the runes of the text
 			pre := c["pre"].(string)
